@@ -20,7 +20,10 @@ DecodeOK(ev) == /\ ev.clean = 1
                 /\ NoMis(Ys(ev)) /\ Good(Ys(ev), ev.faults, ev.cut) /\ NoDup(Ys(ev))
                 /\ \A k \in 1..Len(ev.yields) : ev.yields[k][3] = 1          \* data CRC recomputed from the yielded bytes
 \* raw streams: only "every yielded sector has a good data CRC" can be judged
-RawOK(ev) == ev.clean = 1 /\ \A k \in 1..Len(ev.yields) : ev.yields[k][3] = 1
+\* (streams cut from a stamped track without moving fields - single flips, wiped stretches - also identify the payload: ev.addr = 1,
+\* and then a yield must carry the payload recorded under its address)
+RawOK(ev) == /\ ev.clean = 1 /\ \A k \in 1..Len(ev.yields) : ev.yields[k][3] = 1
+             /\ ev.addr = 1 => \A k \in 1..Len(ev.yields) : ev.yields[k][2] = ev.yields[k][1]
 \* image level: reading (track, sector) gave the sector recorded there (1), failed cleanly (0), or something else (2)
 ReadOK(ev) == ev.result \in {0, 1} /\ (ev.damaged = 0 => ev.result = 1)
 Judge(ev) == CASE ev.e = "decode" -> DecodeOK(ev)
